@@ -1,0 +1,68 @@
+//go:build verif
+
+package dnsforward
+
+// Contracts for govc (see /verif/DESIGN.md).  This file is comment-only and is compiled only with -tags=verif.
+
+// ---- C03: access lists ----
+// Spec functions taken from the property statement: a client is admitted, in allow-list mode, exactly when its address
+// or its ClientID is allowed; otherwise it is excluded exactly when its address or ClientID is disallowed.
+
+//@ define allowMode(a *accessManager) bool = a.allowedIPs.Len() != 0 || a.allowedClientIDs.Len() != 0 || len(a.allowedNets) != 0
+//@ define ipAllowed(a *accessManager, ip netip.Addr) bool = a.allowedIPs.Has(ip) || (exists k int :: 0 <= k && k < len(a.allowedNets) && a.allowedNets[k].Contains(ip.WithZone("")))
+//@ define ipDisallowed(a *accessManager, ip netip.Addr) bool = a.blockedIPs.Has(ip) || (exists k int :: 0 <= k && k < len(a.blockedNets) && a.blockedNets[k].Contains(ip.WithZone("")))
+//@ define admitted(a *accessManager, ip netip.Addr, id string) bool = allowMode(a) ? (ipAllowed(a, ip) || (id != "" && a.allowedClientIDs.Has(id))) : !(ipDisallowed(a, ip) || (id != "" && a.blockedClientIDs.Has(id)))
+
+//@ func (a *accessManager) allowlistMode() (ok bool)
+//@   property C03
+//@   ensures ok == allowMode(a)
+
+//@ func (a *accessManager) isBlockedClientID(id string) (ok bool)
+//@   property C03
+//@   ensures ok == (allowMode(a) ? !(id != "" && a.allowedClientIDs.Has(id)) : (id != "" && a.blockedClientIDs.Has(id)))
+
+//@ func (a *accessManager) isBlockedIP(ip netip.Addr) (blocked bool, rule string)
+//@   property C03
+//@   ensures blocked == (allowMode(a) ? !ipAllowed(a, ip) : ipDisallowed(a, ip))
+//@   loop 1 invariant 0 <= #i && #i <= len(ipnets)
+//@   loop 1 invariant forall j int :: 0 <= j && j < #i ==> !ipnets[j].Contains(ip.WithZone(""))
+
+//@ func (s *Server) IsBlockedClient(ip netip.Addr, clientID string) (blocked bool, rule string)
+//@   property C03
+//@   requires ip != netip.Addr{}
+//@   requires !held(s.serverLock) && !rheld(s.serverLock)
+//@   modifies LockR
+//@   ensures decision: blocked == !admitted(s.access, ip, clientID)
+//@   ensures !rheld(s.serverLock)
+
+// ---- synthetic responses (C01, C03) ----
+
+//@ define synthReply(resp *dns.Msg, req *dns.Msg, code int) bool = fresh(resp) && resp.Rcode == code && resp.Response && len(resp.Answer) == 0 && (len(req.Question) > 0 ==> len(resp.Question) == 1 && resp.Question[0] == req.Question[0])
+
+//@ func (_ *Server) reply(req *dns.Msg, code int) (resp *dns.Msg)
+//@   property C01, C03
+//@   modifies nothing
+//@   ensures synthReply(resp, req, code)
+//@   ensures resp.RecursionAvailable && !resp.Compress
+
+//@ func (s *Server) replyCompressed(req *dns.Msg) (resp *dns.Msg)
+//@   property C01
+//@   modifies nothing
+//@   ensures synthReply(resp, req, 0) && resp.Compress
+
+//@ func (s *Server) makeResponseREFUSED(req *dns.Msg) (r0 *dns.Msg)
+//@   property C01, C03
+//@   modifies nothing
+//@   ensures synthReply(r0, req, 5)
+
+//@ func (s *Server) NewMsgSERVFAIL(req *dns.Msg) (resp *dns.Msg)
+//@   property C03, C16
+//@   modifies nothing
+//@   ensures synthReply(resp, req, 2)
+
+//@ func (s *Server) preBlockedResponse(pctx *proxy.DNSContext) (err error)
+//@   property C03
+//@   modifies nothing
+//@   ensures err != nil
+//@   ensures drop: (pctx.Proto == proxy.ProtoUDP || pctx.Proto == proxy.ProtoDNSCrypt) ==> !typeIs(err, *proxy.BeforeRequestError)
+//@   ensures refused: !(pctx.Proto == proxy.ProtoUDP || pctx.Proto == proxy.ProtoDNSCrypt) ==> typeIs(err, *proxy.BeforeRequestError) && synthReply(unbox(err, *proxy.BeforeRequestError).Response, pctx.Req, 5)
